@@ -126,7 +126,7 @@ func evalC02Decode(c *Ctx, rp c02Replay) {
 }
 
 func runC02(c *Ctx) {
-	c.Res.Rule = "complete finite matrix: claim kind (7) x issuer role (operator, account, user, server, cluster, curve) x subject role x layout (v1, v2) x direction, plus hybrid payloads (top-level kind K1 with nats.type K2 != K1 and nats.version absent/1/2, all roles, both signing layouts). Decode side: forged-but-correctly-signed tokens (payload of a valid token with iss replaced - and, in half of the cells, sub set to the same key -, re-signed by the forged key in the chosen layout), through Decode, DecodeGeneric and every typed decoder. Encode side: every kind x signer role x subject role through the real Encode. Oracle: accepted => issuer role in the property's table and typed decoders only return/accept their own kind, and the kind the returned claims declare (ClaimType) is the kind of the object built and role-checked; Encode with a non-permitted signer or non-fitting subject => error and empty token. non-trivial = distinct matrix cells."
+	c.Res.Rule = "complete finite matrix: claim kind (7) x issuer role (operator, account, user, server, cluster, curve) x subject role x layout (v1, v2) x direction, plus hybrid payloads (top-level kind K1 with nats.type K2 != K1 and nats.version absent/1/2, all roles, both signing layouts). Decode side: forged-but-correctly-signed tokens (payload of a valid token with iss replaced - and, in half of the cells, sub set to the same key; in a third each, issuer_account resp. aud naming an account key -, re-signed by the forged key in the chosen layout), through Decode, DecodeGeneric and every typed decoder. Encode side: every kind x signer role x subject role through the real Encode. Oracle: accepted => issuer role in the property's table and typed decoders only return/accept their own kind, and the kind the returned claims declare (ClaimType) is the kind of the object built and role-checked; Encode with a non-permitted signer or non-fitting subject => error and empty token. non-trivial = distinct matrix cells."
 	roles := []byte{'O', 'A', 'U', 'N', 'C', 'X'}
 	// ---------- decode side ----------
 	for _, kind := range allKinds {
@@ -136,8 +136,10 @@ func runC02(c *Ctx) {
 		payloadB, _ := b64.DecodeString(segs[1])
 		for _, role := range roles {
 			for _, layout := range []string{"v2", "v1"} {
-				for variant := 0; variant < 4; variant++ {
+				for variant := 0; variant < 12; variant++ {
 					kp := kpN(role, 6)
+					other := variant / 4 // 0: nothing else; 1: issuer_account names an account key; 2: aud names an account key
+					variant := variant % 4
 					payload := setJSONPath(string(payloadB), func(m map[string]interface{}) {
 						m["iss"] = pubOf(kp)
 						if variant >= 2 {
@@ -145,6 +147,17 @@ func runC02(c *Ctx) {
 						}
 						variant := variant % 2
 						nats, _ := m["nats"].(map[string]interface{})
+						// other key-valued members must never stand in for the issuer in the role test
+						switch other {
+						case 1:
+							if nats == nil {
+								nats = map[string]interface{}{}
+								m["nats"] = nats
+							}
+							nats["issuer_account"] = pubOf(kpN('A', 7))
+						case 2:
+							m["aud"] = pubOf(kpN('A', 7))
+						}
 						if layout == "v1" {
 							if variant == 0 && nats != nil {
 								// v1 style: kind at top level
